@@ -453,6 +453,317 @@ def shift_agreement(facts, res):
                           t, ("under `%s`" % guards[0][:90]) if guards else "unconditionally", sorted(nz)))
 
 
+def tiling(facts, cls, res, formulas):
+    """C10.6: the near field and the transfer windows of the virtual levels tile the repetition interval: every image box of the
+    interval reported by the library is received exactly once, for every number of extra levels.
+
+    What is read from the code: the extended height H(n) handed to the configuration; M2M: level-(H-2) expansion = the real root, each
+    level L < H-2 built from 2^Dim copies of level L+1 at all child positions (self-similar, width doubles); M2L: per level the
+    window [lo, hi] of cells of that level's width whose expansion is that level's own, minus the |k| <= 1 core; L2L: level L hands
+    its local expansion to level L+1 as the child at position c.  The argument, in one dimension and in units of the original box
+    (windows are cubes and the core is the cube of the too-close test, so the Dim-dimensional statement follows): let a_L be the
+    lower end and w_L the width of the chain cell at level L (a_(H-2) = 0, w = 1, a_L = a_(L+1) - c w_(L+1)).  Going from the finest
+    virtual level to the coarsest, the core of level L, [a_L - w_L, a_L + 2 w_L), must be exactly the region already received
+    (initially the interval the periodic real tree covers alone, i.e. the library's interval for n = -1) - a larger core leaves
+    images out, a smaller one receives images twice - and the window then becomes the received region.  After the coarsest level the
+    received region must be the interval the library reports for that n.  Decided for n = 0..10 (the loops and windows depend on n
+    only through H, so the pattern is periodic from n = 2 on; n = -1 is the real tree alone)."""
+    R = "C10.6.tiling"
+    Hs = sympy.Symbol("H", integer=True)
+    Ls = sympy.Symbol("L", integer=True)
+
+    def SY(text):
+        return sympy.sympify(text, locals={"H": Hs, "p": P, "n": N})
+    f = "src/algorithms/periodic/" + ("tbfalgorithmperiodictoptreetsm.hpp" if cls.endswith("Tsm") else "tbfalgorithmperiodictoptree.hpp")
+
+    def one(name):
+        ms = [m for m in facts.methods_of(cls) if m["name"] == name and tbf.body(m) is not None and not m.get("inst")]
+        if len(ms) != 1:
+            raise AnalysisBroken("%s::%s not found" % (cls, name))
+        return ms[0]
+
+    def hval(n, env):
+        n = strip(n)
+        k = n.get("k")
+        if k == "IntegerLiteral":
+            return sympy.Integer(n["val"])
+        if k == "UnaryOperator" and n.get("op") == "-":
+            return -hval(kids(n)[0], env)
+        if (k.endswith("CastExpr") or k == "ParenExpr") and len(kids(n)) == 1:
+            return hval(kids(n)[0], env)
+        if k == "BinaryOperator" and n.get("op") in ("+", "-"):
+            a, b = hval(kids(n)[0], env), hval(kids(n)[1], env)
+            return a + b if n["op"] == "+" else a - b
+        if k == "DeclRefExpr":
+            if n.get("did") in env:
+                return env[n["did"]]
+        if k in ("CallExpr", "CXXMemberCallExpr") and tbf.callee_name(n) in ("getTreeHeight",):
+            return Hs
+        raise AnalysisBroken("%s: cannot read '%s' as a level" % (facts.loc(n), facts.ntext(n)[:60]))
+
+    # H(n)
+    gen = one("GenerateAboveTreeConfiguration")
+    rets = [r for r in walk(tbf.body(gen)) if r.get("k") == "ReturnStmt" and kids(r)]
+    if len(rets) != 1:
+        raise AnalysisBroken("%s::GenerateAboveTreeConfiguration: single return expected" % cls)
+    firstarg = [y for y in walk(rets[0]) if y.get("k") == "DeclRefExpr" and y.get("dk") == "Var"]
+    decls = {v["did"]: v for v in walk(tbf.body(gen)) if v.get("k") == "VarDecl"}
+    if not firstarg or firstarg[0].get("did") not in decls:
+        raise AnalysisBroken("%s::GenerateAboveTreeConfiguration: height argument not recognised" % cls)
+    hinit = [c for c in walk(decls[firstarg[0]["did"]]) if c.get("k") in ("CallExpr", "CXXMemberCallExpr")]
+    if not hinit:
+        raise AnalysisBroken("%s::GenerateAboveTreeConfiguration: height is not obtained from a height function" % cls)
+    hf = one(tbf.callee_name(hinit[0]))
+    hr = [r for r in walk(tbf.body(hf)) if r.get("k") == "ReturnStmt" and kids(r)]
+    Hn = nval(facts, kids(hr[0])[0], {hf["params"][-1]["did"]: N})
+    res.instance(R, "%s height" % cls, facts.loc(hf), "the top tree's configuration has height H(n) = %s (from %s)" % (Hn, hf["name"]))
+
+    def kcalls(fn, op):
+        return [c for c in walk(tbf.body(fn)) if c.get("k") in ("CallExpr", "CXXMemberCallExpr") and tbf.callee_name(c) == op and tbf.call_base(c) is not None and "kernel" in facts.ntext(tbf.call_base(c))]
+
+    def enclosing_for(fn, node):
+        tbf.link_parents(tbf.body(fn))
+        out = []
+        p_ = node.get("_p")
+        while p_ is not None:
+            if p_.get("k") == "ForStmt":
+                out.append(p_)
+            p_ = p_.get("_p")
+        return out
+
+    def subscript_of(node, arr):
+        """level expression e of the first `arr[e]` inside node"""
+        for y in walk(node):
+            if y.get("k") in ("ArraySubscriptExpr", "CXXOperatorCallExpr") and len(kids(y)) >= 2:
+                b_ = strip(kids(y)[-2])
+                if b_.get("k") == "MemberExpr" and b_.get("name") == arr or (b_.get("k") == "DeclRefExpr" and b_.get("name") == arr):
+                    return kids(y)[-1]
+        return None
+
+    def loopvar_env(fn, loops):
+        env = {}
+        for v in walk(tbf.body(fn)):
+            if v.get("k") == "VarDecl" and v.get("name") in ("idxLevel",) and kids(v) and not any(v in [x for x in kids(kids(l)[0])] for l in loops if kids(l) and kids(l)[0] is not None and kids(l)[0].get("k") == "DeclStmt"):
+                try:
+                    env[v["did"]] = hval(kids(v)[0], env)
+                except AnalysisBroken:
+                    pass
+        for l in loops:
+            init = kids(l)[0]
+            for v in kids(init):
+                if v.get("k") == "VarDecl":
+                    env[v["did"]] = Ls
+        return env
+
+    # ---- M2M: self-similar levels
+    m2m = one("M2M")
+    fm = stages.FnModel(facts, m2m)
+    cs = kcalls(m2m, "M2M")
+    if len(cs) != 2:
+        raise AnalysisBroken("%s::M2M: %d kernel calls (2 confirmed by reading)" % (cls, len(cs)))
+    base = [c for c in cs if not enclosing_for(m2m, c)]
+    rec = [c for c in cs if enclosing_for(m2m, c)]
+    if len(base) != 1 or len(rec) != 1:
+        raise AnalysisBroken("%s::M2M: base / self-similar calls not recognised" % cls)
+    base_level = hval(tbf.call_args(base[0])[1], {})
+    base_out = hval(subscript_of(tbf.call_args(base[0])[3], "multipoles"), {})
+    loop = enclosing_for(m2m, rec[0])[-1]
+    lo_, hi_, d_ = fm.loop_interval(loop)
+    env = loopvar_env(m2m, [loop])
+    rec_level = hval(tbf.call_args(rec[0])[1], env)
+    rec_out = hval(subscript_of(tbf.call_args(rec[0])[3], "multipoles"), env)
+    src = None
+    allpos = False
+    for x in walk(kids(loop)[-1]):
+        if x.get("k") in ("CallExpr", "CXXMemberCallExpr") and tbf.callee_name(x) == "emplace_back":
+            e_ = subscript_of(x, "multipoles")
+            if e_ is not None:
+                src = hval(e_, env)
+                inner = [l for l in enclosing_for(m2m, x) if l is not loop]
+                if len(inner) == 1:
+                    ilo, ihi, _d = fm.loop_interval(inner[0])
+                    iv = [v for v in kids(kids(inner[0])[0]) if v.get("k") == "VarDecl"][0]
+                    asg = [y for y in walk(kids(inner[0])[-1]) if y.get("k") == "BinaryOperator" and y.get("op") == "=" and "positionsOfChildren" in facts.ntext(kids(y)[0])]
+                    allpos = str(ilo) == "0" and "getNbChildrenPerCell" in facts.ntext(kids(inner[0])[1]) and len(asg) == 1 and strip(kids(asg[0])[1]).get("did") == iv["did"]
+    okm = base_level == Hs - 2 and base_out == base_level and rec_level == Ls and rec_out == Ls and src == Ls + 1 and allpos and str(hi_) == "H - 3" and d_ == "down"
+    res.instance(R, "%s::M2M" % cls, facts.loc(m2m), "real root -> level %s; level L in [%s, %s] = all 2^Dim child positions filled with level %s: %s" % (base_level, lo_, hi_, src, "self-similar" if okm else "NOT recognised as self-similar"))
+    if not okm:
+        res.violation(R, f, m2m["qname"], "self-similar", m2m["l"][1], "the virtual levels are not built as: level H-2 = the real root, level L = 2^Dim copies of level L+1 at all child positions for L = H-3 .. (found base level %s -> multipoles[%s], level %s from multipoles[%s], all positions: %s, loop [%s, %s] %s): the expansion of a virtual level is then not the expansion of 2^(H-2-L) boxes per dimension" % (base_level, base_out, rec_level, src, allpos, lo_, hi_, d_))
+    m2m_top = sympy.Integer(int(str(lo_))) if str(lo_).lstrip("-").isdigit() else None
+
+    # ---- M2L: windows per level
+    m2l = one("M2L")
+    fm2 = stages.FnModel(facts, m2l)
+    top = [x for x in kids(tbf.body(m2l)) if x.get("k") == "IfStmt"]
+    if len(top) != 1:
+        raise AnalysisBroken("%s::M2L: the branch on the number of extra levels was not recognised" % cls)
+    tc = [y for y in kids(top[0]) if y.get("k") != "DeclStmt"]
+    cond0 = strip(tc[0])
+    if not (cond0.get("k") == "BinaryOperator" and cond0.get("op") == "==" and "nbLevelsAbove0" in facts.ntext(kids(cond0)[0]) and strip(kids(cond0)[1]).get("val") == 0) or len(tc) != 3:
+        raise AnalysisBroken("%s::M2L: expected `if(nbLevelsAbove0 == 0) ... else ...`" % cls)
+
+    def window_in(block):
+        lo = hi = None
+        for v in walk(block):
+            if v.get("k") == "VarDecl" and v.get("name") in ("minLimits", "maxLimits") and kids(v):
+                for c in walk(v):
+                    if c.get("k") == "CallExpr" and tbf.callee_name(c) == "make_array":
+                        if v["name"] == "minLimits":
+                            lo = int(val(facts, tbf.call_args(c)[0], {}))
+                        else:
+                            hi = int(val(facts, tbf.call_args(c)[0], {}))
+            if v.get("k") in ("CallExpr", "CXXMemberCallExpr") and tbf.callee_name(v) == "fill":
+                b_ = tbf.call_base(v)
+                nm = strip(b_).get("name") if b_ is not None else None
+                if nm == "minLimits":
+                    lo = int(val(facts, tbf.call_args(v)[0], {}))
+                if nm == "maxLimits":
+                    hi = int(val(facts, tbf.call_args(v)[0], {}))
+        return lo, hi
+
+    def core_in(block):
+        for x in walk(block):
+            if x.get("k") == "BinaryOperator" and x.get("op") == ">" and "abs" in facts.ntext(kids(x)[0]):
+                return int(val(facts, kids(x)[1], {}))
+        raise AnalysisBroken("%s::M2L: too-close test not found" % cls)
+
+    def m2l_call(block, env):
+        c_ = [c for c in walk(block) if c.get("k") in ("CallExpr", "CXXMemberCallExpr") and tbf.callee_name(c) == "M2L" and tbf.call_base(c) is not None and "kernel" in facts.ntext(tbf.call_base(c))]
+        if len(c_) != 1:
+            raise AnalysisBroken("%s::M2L: kernel call not found in a branch" % cls)
+        a_ = tbf.call_args(c_[0])
+        lvl = hval(a_[1], env)
+        out_ = hval(subscript_of(a_[5], "locals"), env)
+        srcs = [hval(subscript_of(x, "multipoles"), env) for x in walk(block) if x.get("k") in ("CallExpr", "CXXMemberCallExpr") and tbf.callee_name(x) == "emplace_back" and subscript_of(x, "multipoles") is not None]
+        return lvl, out_, srcs
+
+    # n == 0 branch
+    env0 = {}
+    for v in walk(tc[1]):
+        if v.get("k") == "VarDecl" and v.get("name") == "idxLevel" and kids(v):
+            env0[v["did"]] = hval(kids(v)[0], {})
+    w0 = window_in(tc[1])
+    lvl0, out0, src0 = m2l_call(tc[1], env0)
+    core0 = core_in(tc[1])
+    # n >= 1 branch
+    loops = [x for x in walk(tc[2]) if x.get("k") == "ForStmt" and fm2.is_level_loop(x)]
+    if len(loops) != 1:
+        raise AnalysisBroken("%s::M2L: the loop over the virtual levels was not recognised" % cls)
+    llo, lhi, ld = fm2.loop_interval(loops[0])
+    envl = loopvar_env(m2l, [loops[0]])
+    lv = [v for v in kids(kids(loops[0])[0]) if v.get("k") == "VarDecl"][0]
+    sel = [x for x in walk(kids(loops[0])[-1]) if x.get("k") == "IfStmt" and any(y.get("k") == "DeclRefExpr" and y.get("did") == lv["did"] for y in walk([z for z in kids(x) if z.get("k") != "DeclStmt"][0]))
+           and any(tbf.callee_name(y) == "fill" for y in walk(x) if y.get("k") in ("CallExpr", "CXXMemberCallExpr"))]
+    per_level = []       # (predicate on L as (op, const) or None for default, (lo, hi))
+    if len(sel) == 1:
+        sc = [y for y in kids(sel[0]) if y.get("k") != "DeclStmt"]
+        c1 = strip(sc[0])
+        if not (c1.get("k") == "BinaryOperator" and c1.get("op") == "==" and strip(kids(c1)[0]).get("did") == lv["did"]) or len(sc) != 3:
+            raise AnalysisBroken("%s::M2L: the level test selecting the window is not `idxLevel == c` with an else branch" % cls)
+        per_level.append((int(strip(kids(c1)[1])["val"]), window_in(sc[1])))
+        per_level.append((None, window_in(sc[2])))
+    elif not sel:
+        per_level.append((None, window_in(kids(loops[0])[-1])))
+    else:
+        raise AnalysisBroken("%s::M2L: %d level tests selecting windows" % (cls, len(sel)))
+    lvl1, out1, src1 = m2l_call(kids(loops[0])[-1], envl)
+    core1 = core_in(kids(loops[0])[-1])
+    okl = lvl0 == out0 and all(s_ == lvl0 for s_ in src0) and src0 and lvl1 == Ls and out1 == Ls and src1 and all(s_ == Ls for s_ in src1)
+    res.instance(R, "%s::M2L" % cls, facts.loc(m2l), "n = 0: level %s window %s core %d; n >= 1: levels [%s, %s], windows %s core %d; sources and target of level L are level L's: %s" % (lvl0, w0, core0, llo, lhi, per_level, core1, okl))
+    if not okl:
+        res.violation(R, f, m2l["qname"], "level-coherence", m2l["l"][1], "a transfer of virtual level L must read multipoles[L] and add to locals[L] with the level argument L (found level %s / sources %s -> locals[%s]; loop level %s / sources %s -> locals[%s])" % (lvl0, src0, out0, lvl1, src1, out1))
+
+    # ---- L2L: which child the chain cell is
+    l2l = one("L2L")
+    fm3 = stages.FnModel(facts, l2l)
+    cs = kcalls(l2l, "L2L")
+    rec = [c for c in cs if enclosing_for(l2l, c)]
+    base = [c for c in cs if not enclosing_for(l2l, c)]
+    if len(rec) != 1 or len(base) != 1:
+        raise AnalysisBroken("%s::L2L: chain / base calls not recognised" % cls)
+    loop3 = enclosing_for(l2l, rec[0])[-1]
+    l3lo, l3hi, l3d = fm3.loop_interval(loop3)
+    env3 = loopvar_env(l2l, [loop3])
+    par = hval(subscript_of(tbf.call_args(rec[0])[2], "locals"), env3)
+    lvl3 = hval(tbf.call_args(rec[0])[1], env3)
+    child = None
+    cpos = None
+    for x in walk(kids(loop3)[-1]):
+        if x.get("k") in ("CallExpr", "CXXMemberCallExpr") and tbf.callee_name(x) == "emplace_back" and subscript_of(x, "locals") is not None:
+            child = hval(subscript_of(x, "locals"), env3)
+        if x.get("k") == "BinaryOperator" and x.get("op") == "=" and "positionsOfChildren" in facts.ntext(kids(x)[0]):
+            try:
+                cpos = int(val(facts, kids(x)[1], {}))
+            except Exception:
+                cpos = None
+    bpar = hval(subscript_of(tbf.call_args(base[0])[2], "locals"), {})
+    blvl = hval(tbf.call_args(base[0])[1], {})
+    ok3 = par == Ls and lvl3 == Ls and child == Ls + 1 and cpos in (0, 1) and bpar == Hs - 2 and blvl == Hs - 2 and str(l3hi) == "H - 3" and l3d == "up"
+    res.instance(R, "%s::L2L" % cls, facts.loc(l2l), "levels [%s, %s]: locals[L] -> locals[%s] as child %s; level %s -> the real level-1 cells: %s" % (l3lo, l3hi, child, cpos, bpar, "chain" if ok3 else "NOT recognised"))
+    if not ok3:
+        res.violation(R, f, l2l["qname"], "chain", l2l["l"][1], "the downward pass over the virtual levels is not: locals[L] into locals[L+1] as one fixed child (position 0 or 1 per dimension), L = .. H-3, then locals[H-2] into the real level-1 cells (found locals[%s] -> locals[%s] as child %s with level %s over [%s, %s]; base locals[%s] level %s)" % (par, child, cpos, lvl3, l3lo, l3hi, bpar, blvl))
+    if not (okm and okl and ok3):
+        return
+    # ---- the tiling, n = 0 .. 10
+    near = formulas.get(-1)
+    if near is None:
+        raise AnalysisBroken("%s: interval of the real periodic tree alone (n = -1) not available" % cls)
+    nlo, nhi = int(SY(near[1])), int(SY(near[2]))
+    checked = 0
+    for n in range(0, 11):
+        H = int(Hn.subs(N, n))
+        fl = formulas[0] if n == 0 else formulas["else"]
+        want = (int(SY(fl[1]).subs(P, 2 ** n)), int(SY(fl[2]).subs(P, 2 ** n)) + 1)
+        # levels at which a transfer happens, finest first
+        if n == 0:
+            levels = [(int(lvl0.subs(Hs, H)), w0, core0)]
+        else:
+            a_, b_ = int(SY(str(llo)).subs(Hs, H)), int(SY(str(lhi)).subs(Hs, H))
+            levels = []
+            for L in range(b_, a_ - 1, -1):
+                w_ = [w for (c_, w) in per_level if c_ == L] or [w for (c_, w) in per_level if c_ is None]
+                levels.append((L, w_[0], core1))
+        # the levels that exist: M2M builds H-2 down to its loop's lower bound; L2L carries lower bound .. H-3 down
+        got = (nlo, nhi + 1)
+        a_L, w_L, prev = 0, 1, H - 2
+        bad = None
+        for (L, (wlo, whi), core) in levels:
+            if L > H - 2 or (m2m_top is not None and L < int(m2m_top)) and L != H - 2:
+                bad = "level %d has no expansion (M2M builds levels %s .. H-2 = %d)" % (L, lo_, H - 2)
+                break
+            while prev > L:
+                a_L -= cpos * w_L
+                w_L *= 2
+                prev -= 1
+            if L < H - 2 and not (int(SY(str(l3lo)).subs(Hs, H)) <= L <= int(SY(str(l3hi)).subs(Hs, H))):
+                bad = "the local expansion of level %d is never handed down (L2L carries levels %s .. %s)" % (L, l3lo, l3hi)
+                break
+            core_iv = (a_L - core * w_L, a_L + (core + 1) * w_L)
+            if core_iv != got:
+                more = "; ".join(t for t in ("images in %s are received twice" % _iv_minus(got, core_iv) if _iv_minus(got, core_iv) else "", "images in %s are never received" % _iv_minus(core_iv, got) if _iv_minus(core_iv, got) else "") if t)
+                bad = "at virtual level %d (cells of %d boxes, chain cell at %d) the excluded core covers boxes [%d, %d] but the finer levels and the near field have covered [%d, %d]: %s" % (L, w_L, a_L, core_iv[0], core_iv[1] - 1, got[0], got[1] - 1, more)
+                break
+            got = (a_L + wlo * w_L, a_L + (whi + 1) * w_L)
+        if bad is None and got != want:
+            bad = "the levels together cover the boxes [%d, %d] but the library reports the repetition interval [%d, %d]" % (got[0], got[1] - 1, want[0], want[1] - 1)
+        checked += 1
+        if bad is not None:
+            res.violation(R, f, cls, "n=%d" % n if n < 3 else "n>=3", m2l["l"][1], "with %d extra level(s): %s - not every image of the reported interval contributes exactly once" % (n, bad))
+            if n >= 3:
+                break
+    res.instance(R, "%s tiling" % cls, facts.loc(m2l), "n = 0 .. %d: core of each virtual level == region already received, final region == reported interval" % (checked - 1))
+
+
+def _iv_minus(a, b):
+    """boxes of interval a (half open) not in interval b, as text; '' when none"""
+    out = []
+    if a[0] < min(b[0], a[1]):
+        out.append("[%d, %d]" % (a[0], min(b[0], a[1]) - 1))
+    if a[1] > max(b[1], a[0]):
+        out.append("[%d, %d]" % (max(b[1], a[0]), a[1] - 1))
+    return " and ".join(out)
+
+
 def run(res, tier):
     facts = tbf.scan("core")
     res.units.append("umbrella TU 'core': TbfAlgorithmPeriodicTopTree, TbfAlgorithmPeriodicTopTreeTsm, TbfMortonSpaceIndex::getNbInteractionsPerCell")
@@ -461,6 +772,7 @@ def run(res, tier):
     res.rule("C10.4 extended box width = original width x 2^(extended tree height - 2), as a multiplicative update, on every branch")
     res.rule("C10.3 the single-tree and target/source top trees agree on formulas, windows and virtual-level loops")
     res.rule("C10.5 the shift decision (NeedToShift) is true exactly under the per-dimension conditions that give a non-zero shift coefficient (GetShiftCoef), both cover all dimensions, -W below 0 / +W beyond the limit")
+    res.rule("C10.6 tiling: with the height, windows, cores, child position and level loops read from the code, the core of each virtual level is exactly the region the finer levels and the near field have already covered and the final region is the reported repetition interval, for n = 0..10 extra levels (one-dimensional argument in units of the original box; windows and cores are cubes)")
     shift_agreement(facts, res)
     morton_nb = morton_interactions(facts)
     res.instance("C10.2.window-extent", "getNbInteractionsPerCell", "src/spacial/tbfmortonspaceindex.hpp", "%d^Dim - %d^Dim" % morton_nb)
@@ -470,6 +782,7 @@ def run(res, tier):
         w = windows(facts, cls, res, morton_nb)
         v = virtual_levels(facts, cls)
         extension_geometry(facts, cls, res)
+        tiling(facts, cls, res, f1)
         summ[cls] = {"formulas": f1, "windows": w, "virtual": v}
     a, b = summ[CLASSES[0]], summ[CLASSES[1]]
     R = "C10.3.sibling-agreement"
